@@ -443,7 +443,87 @@ pub fn gen_poly_coercion(r: &mut Rng) -> Coercion {
     Coercion { h, shape: "polymorphic:aliases-between-binders" }
 }
 
+// Sort confusion: a context of 3-7 frames - type parameters, parameters of abstract, aliased or
+// ground type, aliases of the universe (`k : type = type`), aliases of types typed by `type` or by
+// such a kind alias, values typed through aliases - and then a function type, a function or a
+// definition whose domain / codomain / annotation is a *variable* of that context. Whether the
+// variable stands for a type depends on the type of its type, two steps away in the context, and
+// on which neighbouring entry is a definition; the reference says which programs are well sorted.
+pub fn gen_sort_confusion(r: &mut Rng) -> Coercion {
+    #[derive(Clone, Copy, PartialEq)]
+    enum S {
+        Kind,  // denotes the universe
+        Type,  // denotes a type
+        Value, // denotes a value
+    }
+    let nframes = 3 + r.usize(5);
+    let mut scope: Vec<(String, S)> = vec![];
+    let mut frames: Vec<(String, bool, H, Option<H>)> = vec![]; // name, is_param, type, definition
+    let pick = |r: &mut Rng, scope: &Vec<(String, S)>, s: S| -> Option<H> {
+        let c: Vec<&(String, S)> = scope.iter().filter(|x| x.1 == s).collect();
+        if c.is_empty() { None } else { Some(H::Var(c[r.usize(c.len())].0.clone())) }
+    };
+    for i in 0..nframes {
+        let name = format!("{}{}", ["a", "b", "c", "k", "j", "n", "y"][r.usize(7)], i);
+        let kind_h = if r.chance(1, 3) { pick(r, &scope, S::Kind).unwrap_or(H::Type) } else { H::Type };
+        let type_h = |r: &mut Rng, scope: &Vec<(String, S)>| -> H {
+            if r.chance(2, 3) {
+                if let Some(t) = pick(r, scope, S::Type) {
+                    return t;
+                }
+            }
+            if r.chance(1, 2) { H::Int } else { H::Bool }
+        };
+        let (is_param, ty, def, sort) = match r.below(8) {
+            0 | 1 => (true, kind_h, None, S::Type),
+            2 => {
+                let t = type_h(r, &scope);
+                (true, t, None, S::Value)
+            }
+            3 => (false, kind_h, Some(H::Type), S::Kind),
+            4 | 5 => {
+                let t = type_h(r, &scope);
+                (false, kind_h, Some(t), S::Type)
+            }
+            _ => {
+                // a value typed by a ground type or through an alias of one
+                let b = r.chance(1, 2);
+                let v = if b { H::lit(r.below(9) as i64) } else { H::True };
+                // annotated with the ground type itself or with some alias (which may denote
+                // another type: then the program is ill typed and must be rejected)
+                let t = if r.chance(1, 2) { G::ground(b) } else { type_h(r, &scope) };
+                (false, t, Some(v), S::Value)
+            }
+        };
+        frames.push((name.clone(), is_param, ty, def));
+        scope.push((name, sort));
+    }
+    // the final expression: variables of the context in type positions
+    let any = |r: &mut Rng, scope: &Vec<(String, S)>| -> H {
+        match r.below(6) {
+            0 => H::Int,
+            1 => H::Type,
+            _ => H::Var(scope[r.usize(scope.len())].0.clone()),
+        }
+    };
+    let (v1, v2) = (any(r, &scope), any(r, &scope));
+    let last = match r.below(4) {
+        0 | 1 => H::Pi(if r.chance(1, 2) { "x".into() } else { "_".into() }, false, hb(v1), hb(v2)),
+        2 => H::Lam("x".into(), false, Some(hb(v1)), hb(if r.chance(1, 2) { H::var("x") } else { v2 })),
+        _ => H::Paren(hb(H::Let("d".into(), Some(hb(v1)), hb(v2), hb(H::var("d"))))),
+    };
+    let mut h = last;
+    for (name, is_param, ty, def) in frames.into_iter().rev() {
+        h = if is_param { H::Lam(name, false, Some(hb(ty)), hb(h)) } else { H::Let(name, Some(hb(ty)), hb(def.unwrap()), hb(h)) };
+    }
+    Coercion { h, shape: "sort-confusion:variables-in-type-positions" }
+}
+
 // The mix used by the sections of C01, C03, C04, C05.
 pub fn gen_any(r: &mut Rng, wrap_other: bool) -> Coercion {
-    if r.chance(1, 4) { gen_poly_coercion(r) } else { gen_coercion(r, wrap_other) }
+    match r.below(8) {
+        0 | 1 => gen_poly_coercion(r),
+        2 => gen_sort_confusion(r),
+        _ => gen_coercion(r, wrap_other),
+    }
 }
